@@ -446,6 +446,7 @@ OPS = [["read", "time"], ["read", "perf_counter"], ["read", "monotonic"], ["set_
        ["load_state_dict", ["100", "200", "300"]], ["sleep", "4"], ["get_scale"], ["is_paused"]]
 WRITERS = [["set_scale", "2"], ["set_scale", "1/4"], ["pause"], ["resume"], ["state_dict"],
            ["load_state_dict", ["100", "200", "300"]]]
+FULL_THOROUGH = [["read", "time"], ["state_dict"], ["set_scale", "1/2"], ["sleep", "4"]]
 PREFIXES = [[["set_scale", "4"]], [["set_scale", "2"], ["pause"]], []]
 GAPS = ["1", "1/2", "2", "1/4", "1", "3", "1/2", "1", "2", "1"]
 
@@ -473,10 +474,10 @@ def suite_concurrent(ctx: Ctx) -> SuiteResult:
         rule="2-3 logical threads calling public TimeController operations, LINE preemption inside "
              "pamiq_core/time.py: (a) one operation || one operation for every writer (set_scale, "
              "pause, resume, state_dict, load_state_dict) x every operation kind, after a sequential "
-             "prefix that leaves scale 4 and real time elapsed: EVERY schedule for three pairs "
-             "(thorough: all 72), every schedule with <= 1 preemption for the others; (b) schedules "
+             "prefix that leaves scale 4 and real time elapsed: EVERY schedule for two pairs "
+             "(thorough: 24), every schedule with <= 1 (thorough 2) preemptions for the others; (b) schedules "
              "with <= 2 (thorough 3) preemptions of 2 x 2 and 1 x 1 x 1 operations for a spread of "
-             "mixes (quick: first 200 each); (c) random programs (1-3 ops per thread) under random "
+             "mixes (first 200 each; thorough: first 2000); (c) random programs (1-3 ops per thread) under random "
              "schedules; each run: model run sequentially in the observed lock order + one outermost "
              "acquisition per public call + linearizability against the integral specification; "
              "non-trivial = all; distinct = by (programs, lock order)")
@@ -494,14 +495,13 @@ def suite_concurrent(ctx: Ctx) -> SuiteResult:
         return len(res.violations) > 10 or len(res.disagreements) > 10
 
     # (a) one operation || one operation
-    full = [(["set_scale", "2"], ["read", "time"]), (["pause"], ["read", "monotonic"]),
-            (["state_dict"], ["set_scale", "1/2"])]
+    full = [(["set_scale", "2"], ["read", "time"]), (["pause"], ["read", "monotonic"])]
     for w in WRITERS:
         for o in OPS:
-            everything = thorough or (w, o) in full
+            everything = (w, o) in full or (thorough and o in FULL_THOROUGH)
             base = {"kind": "conc", "start": "0", "gaps": GAPS, "prefix": PREFIXES[0],
                     "threads": [[w], [o]], "preempt": "lines",
-                    "max_preemptions": None if everything else 1}
+                    "max_preemptions": None if everything else (2 if thorough else 1)}
             explore_case(base, ctx.driver, res)
             res.hit("pairs:all-schedules" if everything else "pairs:one-preemption")
             if stop():
@@ -517,12 +517,12 @@ def suite_concurrent(ctx: Ctx) -> SuiteResult:
         for prefix in (PREFIXES if thorough else PREFIXES[:2]):
             base = {"kind": "conc", "start": "1/2", "gaps": GAPS, "prefix": prefix,
                     "threads": threads, "preempt": "lines", "max_preemptions": 3 if thorough else 2}
-            explore_case(base, ctx.driver, res, max_runs=None if thorough else 200)
+            explore_case(base, ctx.driver, res, max_runs=2000 if thorough else 200)
             if stop():
                 return res
     res.sample(base)
     # (c) random
-    for _ in range(ctx.n(300, 12000)):
+    for _ in range(ctx.n(300, 6000)):
         case = random_case(ctx.rng)
         vs, d, r = run_case(case, ctx.driver)
         case = dict(case, schedule=r.schedule)
